@@ -285,16 +285,16 @@ def gen_world(rng, profile=None):
     # fleets
     fleets = None
     if rng.random() < prof["p_fleets"]:
-        names = ["fa", "fb"] + (["fc"] if rng.random() < 0.3 else [])
+        names = rng.choice([["fa"], ["fa", "fb"], ["fa", "fb"], ["fa", "fb"], ["fa", "fb", "fc"], ["fa", "fb", "fc"]])
         fleets = {n: {"vehicles": [], "stations": [], "bases": []} for n in names}
         for v in vehicles:
             for n in rng.sample(names, min(len(names), rng.choice(prof.get("veh_fleet_counts", [0, 1, 1, 2])))):
                 fleets[n]["vehicles"].append(v["id"])
         for s in stations:
-            for n in rng.sample(names, rng.choice([0, 0, 1, 2])):
+            for n in rng.sample(names, min(len(names), rng.choice([0, 0, 1, 2]))):
                 fleets[n]["stations"].append(s["id"])
         for b in bases:
-            for n in rng.sample(names, rng.choice([0, 0, 1, 2])):
+            for n in rng.sample(names, min(len(names), rng.choice([0, 0, 1, 2]))):
                 fleets[n]["bases"].append(b["id"])
 
     # requests: sorted, bursts, gaps, identical timestamps, before start, on and between boundaries
